@@ -29,7 +29,7 @@ CHECKS = [
     ('contracts/axelar-operators/', ['C17', 'C06', 'C07', 'C15']),
     ('contracts/upgrader/', ['C15']),
     ('contracts/example/', ['C16', 'C13', 'C07']),
-    ('packages/', ['C15', 'C06', 'C12', 'C02', 'C14', 'C17', 'C04', 'C05', 'C09']),
+    ('packages/', ['C15', 'C06', 'C12', 'C02', 'C14', 'C17', 'C04', 'C05', 'C09', 'C11', 'C18', 'C03', 'C16']),
 ]
 
 
@@ -237,10 +237,20 @@ def main():
         workers = int(opt('--workers', '4')); threads = int(opt('--threads', '4'))
         limit = opt('--limit')
         done = {}
-        if '--resume' in args and os.path.exists(res_path):
+        if ('--resume' in args or '--redo-survivors' in args) and os.path.exists(res_path):
             for l in open(res_path):
                 f = l.rstrip('\n').split('\t')
                 if len(f) >= 2: done[f[0]] = f
+        if '--redo-survivors' in args:
+            # re-run only the mutants that survived (or ended in a harness error) last time, e.g. after the
+            # checks were strengthened; their rows are replaced
+            redo = {k for k, f in done.items() if f[1] in ('survived', 'harness', 'error')}
+            muts = [m for m in muts if m['id'] in redo]
+            keep = [f for k, f in done.items() if k not in redo]
+            done = {f[0]: f for f in keep}
+            with open(res_path, 'w') as fo:
+                for f in keep:
+                    fo.write('\t'.join(f) + '\n')
         if limit:
             # spread the sample over the list deterministically
             n = int(limit); step = max(1, len(muts) // n)
@@ -250,7 +260,7 @@ def main():
         q = queue.Queue()
         for m in todo: q.put(m)
         lock = threading.Lock()
-        fout = open(res_path, 'a' if '--resume' in args else 'w')
+        fout = open(res_path, 'a' if ('--resume' in args or '--redo-survivors' in args) else 'w')
         def work(k):
             d = setup_slot(k)
             while True:
